@@ -22,7 +22,7 @@ func selfTest(ctx *core.Ctx) error {
 	// an intact observation: the complete file
 	mk := func(cut int64) event {
 		ob := observe(t, t.data[:cut])
-		return event{Lo: cut, Hi: cut, Res: ob.Res, MR: ob.MR, Per: append([]perObj{}, ob.Per...)}
+		return event{Lo: cut, Hi: cut, Whole: cut == int64(len(t.data)), Res: ob.Res, MR: ob.MR, Per: append([]perObj{}, ob.Per...)}
 	}
 	full := int64(len(t.data))
 	good := mk(full)
